@@ -10,13 +10,15 @@ package main
 //
 // prints one JSON line (endpoints, registered namespaces, method signatures obtained by reflection over the
 // registered services, probe calls with the answers computed by calling the API objects directly), then obeys
-// one-letter commands on stdin: m = insert a momentum (answers "ok"), q / EOF = exit 0.
+// one-letter commands on stdin: m = insert a momentum (answers "ok"), c = the number of executions of the
+// side-effect probe verif.bump so far (answers "c <n>"), q / EOF = exit 0.
 
 import (
 	"bufio"
 	"context"
 	"encoding/json"
 	"fmt"
+	"hash/crc32"
 	"math/rand"
 	"net"
 	"net/http/httptest"
@@ -25,6 +27,7 @@ import (
 	"reflect"
 	"sort"
 	"strconv"
+	"sync/atomic"
 	"unicode"
 
 	g "github.com/zenon-network/go-zenon/chain/genesis/mock"
@@ -57,6 +60,23 @@ type childInfo struct {
 	Addresses  []string    `json:"addresses"`
 	Hashes     []string    `json:"hashes"`
 	Tokens     []string    `json:"tokens"`
+	// a method with a visible side effect (an execution counter read out of band over stdin, not over the rpc
+	// server): lets the parent decide whether a request has been EXECUTED, whatever was answered
+	Bump       string   `json:"bump"`
+	BumpParams []string `json:"bumpParams"`
+}
+
+// the side-effect probe: namespace "verif", method bump(pad, k). Every execution moves the counter; the result is a
+// function of the arguments only (the length and checksum of pad show that the whole argument arrived)
+type bumpService struct{ n uint64 }
+
+func (b *bumpService) Bump(pad string, k uint64) string {
+	atomic.AddUint64(&b.n, 1)
+	return bumpResult(len(pad), k, crc32.ChecksumIEEE([]byte(pad)))
+}
+
+func bumpResult(padLen int, k uint64, crc uint32) string {
+	return fmt.Sprintf("bump:%d:%d:%08x", padLen, k, crc)
 }
 
 var (
@@ -133,6 +153,13 @@ func rpcChildMain(args []string) {
 		info.Methods = append(info.Methods, signatures(a.Namespace, a.Service)...)
 	}
 	info.Methods = append(info.Methods, methodSig{Name: "rpc.modules", Params: []string{}}) // the server's own meta service
+	// not listed in info.Methods: the document generator does not call it, only the size / framing family does
+	bump := &bumpService{}
+	if err := srv.RegisterName("verif", bump); err != nil {
+		fmt.Fprintln(os.Stderr, "register: verif", err)
+		os.Exit(3)
+	}
+	info.Bump, info.BumpParams = "verif.bump", []string{"string", "uint64"}
 	sort.Slice(info.Methods, func(i, j int) bool { return info.Methods[i].Name < info.Methods[j].Name })
 	seenNs := map[string]bool{"rpc": true}
 	for _, a := range rpc.GetApis(nd.Z, nil, "ledger", "ledgerSubscribe", "embedded") {
@@ -216,6 +243,10 @@ func rpcChildMain(args []string) {
 		if c == 'm' {
 			nd.Momentum()
 			w.WriteString("ok\n")
+			w.Flush()
+		}
+		if c == 'c' {
+			fmt.Fprintf(w, "c %d\n", atomic.LoadUint64(&bump.n))
 			w.Flush()
 		}
 	}
